@@ -122,6 +122,18 @@ pub fn make(op: Opcode, operands: &[usize], line: usize) -> Instructions {
     }
 }
 
+/// Check that every operand of an instruction can be encoded in the width
+/// its definition gives it ('make' would otherwise silently truncate it).
+pub fn operands_fit(op: Opcode, operands: &[usize]) -> bool {
+    match DEFINITIONS.get(&op) {
+        Some(def) => operands
+            .iter()
+            .zip(def.operand_widths)
+            .all(|(&o, &w)| w >= std::mem::size_of::<usize>() || o < (1usize << (8 * w))),
+        None => false,
+    }
+}
+
 /*
  * Helper function to decode the the operands of a bytecode instruction.
  * It is a counterpart of 'make'
